@@ -398,7 +398,7 @@ def check_property(prop, tier, seed):
         ct = work.pop()
         for callee, pol in (ct.policy or {}).items():
             cc = w.contracts.get(callee) if pol == "contract" else None
-            if cc is not None and cc.key not in seen and cc.scenarios:
+            if cc is not None and cc.key not in seen and cc.scenarios and not getattr(cc, "heavy", False):
                 seen.add(cc.key)
                 cc.dependency_of = getattr(cc, "dependency_of", set()) | {prop}
                 contracts.append(cc)
@@ -666,7 +666,7 @@ def callee_assumptions(w, contracts, prop):
                 cc = w.contracts.get(callee)
                 if cc is None:
                     out.add(f"call sites of {short} use a contract that is not registered (unsupported at run time)")
-                elif prop not in cc.serves and not cc.scenarios:
+                elif prop not in cc.serves and (not cc.scenarios or getattr(cc, "heavy", False)):
                     out.add(f"call sites of {short} are checked against its contract, which is discharged by the check(s) of {', '.join(cc.serves)} (assumed here)")
                 elif not cc.scenarios:
                     out.add(f"call sites of {short} use an assumed summary (no scenario of its own is verified)")
